@@ -50,6 +50,10 @@ CLAIMED = {
         text="Lean theorems: the well-formedness invariant (payload shape = reported size, scale shaped along the declared axis, storage dtype of the qtype, outer dtype = scale dtype) holds for the quantizers' outputs and is preserved by every intercepted op returning a quantized value, hence for all reachable values by induction over programs; "
              "moves keep codes, a dtype move changes only the scale; counter-example for the repaired split defect. The same decidable predicate is evaluated by the Lean driver on the flatten view of every quantized tensor met in the C05 programs, after moves, state_dict round trips and freeze.",
         design="6/C06", technique="Lean 4 invariant proof by induction over op programs + executable predicate evaluated on implementation values"),
+    "C07": dict(
+        text="Lean theorems: total route tables of the CPU/CUDA/MPS implementations with their preconditions, agreement of the integer, int8-packed and float kernels for every accumulator and scale, exact factorisation of the scales out of the contraction, explicit three-rounding error bound of one output element, "
+             "output shape / batch flattening, int32 accumulator bound, counter-example for float8 x float8 in float16. Bit-exact correspondence of torch.nn.functional.linear on exact-arithmetic operand sets (all activation kinds x weight qtypes x dtypes x batch shapes x bias), kernels and route functions called directly with the route actually taken observed; realistic magnitudes against a float64 reference inside the accumulation envelope (validated, not proved).",
+        design="6/C07", technique="Lean 4 proof (decision tables + exact arithmetic + rounding bounds) + bit-exact correspondence on exact-arithmetic operand sets"),
 }
 
 NOT_YET = "check not yet built in this round (build in progress; see DESIGN.md build order)"
